@@ -21,7 +21,7 @@ class C06(Spec):
             "unsupported key) recovered by the caller and followed by ordinary traffic on the same key, shard and other shards, "
             "loads in flight across 5..25 sweep ticks, and 257..1000 entries in ONE shard (keys congruent modulo the shard "
             "count) that are live / rotted at a sweep tick with more traffic after it. non-trivial = more Loads outstanding than the "
-            "job queue holds at some instant, or more than 128 keys")
+            "job queue holds at some instant, or more than 128 keys Round-4: dependent loaders - the loader of key A performs Load(B)+Future.Get2 (nested calls are ordinary client invocations of the model issued while the loader runs; `lmid` marks their completion) with B queued behind A while every worker is busy (P >= 2) or already resolved (P = 1); bursts whose Loads are refreshes of stale entries.")
     trusted_base = CACHE_TRUSTED + ["hang detection: a controller goroutine sleeping on the fake clock reports calls that are still blocked "
                                     "after (last call instant + sum of all loader durations + 8*En)",
                                     "live-lock detection: the harness runs as supervisor + child process; a child that makes no progress for 12 s of "
